@@ -377,6 +377,15 @@ type ppSim struct {
 
 func ppName(n xml.Name) string { return "{" + n.Space + "}" + n.Local }
 
+func ppSortedNames(m map[xml.Name]string) []xml.Name {
+	ns := make([]xml.Name, 0, len(m))
+	for n := range m {
+		ns = append(ns, n)
+	}
+	sort.Slice(ns, func(i, j int) bool { return ppName(ns[i]) < ppName(ns[j]) })
+	return ns
+}
+
 func (s *ppSim) walk(rt *rapid.T) {
 	snap, err := cmSnap(s.ctx, s.fs)
 	if err != nil {
@@ -731,6 +740,8 @@ func (s *ppSim) propfind(rt *rapid.T, c vs.Chooser, client int, p string, mode i
 		return vs.Violf("C47", "response_malformed", "propfind:response_malformed", "PROPFIND %s: multistatus response does not parse: %v\nresponse: %s", p, err, cmShort(rec.Body.String()))
 	}
 	sawSelf := false
+	// memFS lists directories in map order: judge the responses in a fixed order.
+	sort.SliceStable(rs, func(i, j int) bool { return rs[i].href < rs[j].href })
 	for _, r := range rs {
 		rp := s.hrefToPath(r.href)
 		if rp == p {
@@ -754,7 +765,8 @@ func (s *ppSim) propfind(rt *rapid.T, c vs.Chooser, client int, p string, mode i
 		}
 		switch mode {
 		case 0, 1:
-			for n, v := range got {
+			for _, n := range ppSortedNames(got) {
+				v := got[n]
 				want, ok := model[n]
 				if !ok {
 					if n.Space == "DAV:" {
@@ -769,7 +781,7 @@ func (s *ppSim) propfind(rt *rapid.T, c vs.Chooser, client int, p string, mode i
 					return vs.Violf("C47", "propfind_value_differs", "propfind:propname_has_value", "PROPFIND propname: %s of %s carries a value %q", ppName(n), rp, v)
 				}
 			}
-			for n := range model {
+			for _, n := range ppSortedNames(model) {
 				if _, ok := got[n]; !ok {
 					return vs.Violf("C47", "propfind_missing_property", "propfind:missing", "PROPFIND %s (mode %d) does not report %s of %s (set to %q)\nresponse: %s", p, mode, ppName(n), rp, model[n], cmShort(rec.Body.String()))
 				}
